@@ -246,7 +246,9 @@ def sigma_filter(filename, region, step_size, box_size, shape, domask,
     # Manually scale the data if BSCALE is not 1.0
     header = fits.getheader(filename)
     if 'BSCALE' in header:
-        data *= header['BSCALE']
+        # not in place: integer images (BITPIX 8/16/32) cannot hold the
+        # scaled values
+        data = data * header['BSCALE']
 
     # force float64 for consistency
     data = data.astype(np.float64)
